@@ -57,6 +57,9 @@ func switchTable(pk *packages.Package, fd *ast.FuncDecl) (map[string]string, boo
 				ret = types.ExprString(r.Results[0])
 			}
 		}
+		if cc.List == nil {
+			out["default"] = ret
+		}
 		for _, e := range cc.List {
 			if id, ok := e.(*ast.Ident); ok {
 				out[id.Name] = ret
